@@ -584,6 +584,10 @@ class World:
                 a, b = sr.pre.get(p), sr.post.get(p)
                 if not (a is not None and a[0] == 'd' and b is None):
                     continue
+            elif all(sr.pre.get(p) is None for p in e['paths'] if p not in allowed_files and p != self.cache):
+                # a path that did not exist before the call cannot be a foreign file: the
+                # library may use transient files of its own (e.g. write-then-rename)
+                continue
             sr.divs.append(div('foreign_event', ev=e['ev'], phase=e['phase'],
                                paths=[env.rel(self.sb, p) for p in e['paths']],
                                classes=[self.path_class(sr, env.rel(self.sb, p)) for p in e['paths']]))
@@ -747,6 +751,8 @@ class World:
                     a, b = sr.pre.get(p), sr.post.get(p)
                     if not (a is not None and a[0] == 'd' and b is None):
                         continue
+                elif all(sr.pre.get(p) is None for p in e['paths'] if p not in allowed_files and p != self.cache):
+                    continue
                 sr.divs.append(div('foreign_event', ev=e['ev'], phase='clean',
                                    paths=[env.rel(self.sb, p) for p in e['paths']]))
                 break
